@@ -23,7 +23,17 @@ const BIN: &str = "/verif/build/repo-target/debug/trampoline";
 #[derive(Clone, Debug)]
 pub struct Opts { pub cltv: i64, pub policy: i64, pub base: i64, pub ppm: i64, pub mpp: i64, pub pay: i64, pub noself: bool, pub xpay: bool }
 
-struct Proc { child: Child, stdin: ChildStdin, stdout: ChildStdout, buf: Vec<u8>, all_out: Vec<u8> }
+struct Proc { child: Child, stdin: ChildStdin, stdout: ChildStdout, buf: Vec<u8>, all_out: Vec<u8>, err_path: String }
+
+static ERR_SEQ: std::sync::atomic::AtomicU64 = std::sync::atomic::AtomicU64::new(0);
+
+/// the real binary's stderr: a task that panics in the background leaves its message here and nowhere else
+fn check_stderr(ctx: &mut Ctx, p: &Proc, what: &str) {
+    if let Ok(t) = std::fs::read_to_string(&p.err_path) {
+        if let Some(l) = t.lines().find(|l| l.contains("panicked at")) { ctx.violation("C06", "e2e-task-panic", &format!("a task of the real binary panicked during {}: {}", what, l)); }
+    }
+    let _ = std::fs::remove_file(&p.err_path);
+}
 
 impl Proc {
     async fn send(&mut self, v: &Value) { let mut b = v.to_string().into_bytes(); b.extend_from_slice(b"\n\n"); let _ = self.stdin.write_all(&b).await; let _ = self.stdin.flush().await; }
@@ -94,10 +104,12 @@ pub fn htlc_request(id: u64, invoice: &str, hash: &[u8], amount: u64, total: Opt
 }
 
 async fn start(sock: &str, o: &Opts) -> Option<(Proc, bool)> {
-    let mut child = Command::new(BIN).stdin(Stdio::piped()).stdout(Stdio::piped()).stderr(Stdio::null()).kill_on_drop(true).spawn().ok()?;
+    let err_path = format!("/verif/build/e2e-stderr-{}-{}.log", std::process::id(), ERR_SEQ.fetch_add(1, std::sync::atomic::Ordering::SeqCst));
+    let err_file = std::fs::File::create(&err_path).ok()?;
+    let mut child = Command::new(BIN).stdin(Stdio::piped()).stdout(Stdio::piped()).stderr(Stdio::from(err_file)).kill_on_drop(true).spawn().ok()?;
     let stdin = child.stdin.take()?;
     let stdout = child.stdout.take()?;
-    let mut p = Proc { child, stdin, stdout, buf: vec![], all_out: vec![] };
+    let mut p = Proc { child, stdin, stdout, buf: vec![], all_out: vec![], err_path };
     p.send(&json!({"jsonrpc": "2.0", "id": "m1", "method": "getmanifest", "params": {"allow-deprecated-apis": false}})).await;
     let man = p.recv(Duration::from_secs(10)).await?;
     if man["id"] != "m1" { return None; }
@@ -140,7 +152,7 @@ async fn config_case(ctx: &mut Ctx, sock: &str, o: &Opts, x: u32, idx: u64) {
         Some((mut p, false)) => {
             observed = "refused".to_string();
             if should_start { ctx.violation("C19", "config-refused-valid", &format!("valid options were refused REPLAY[{}]", input)); }
-            let _ = p.child.kill().await;
+            let _ = p.child.kill().await; check_stderr(ctx, &p, "an e2e session");
         }
         Some((mut p, true)) => {
             if !should_start { ctx.violation("C19", "config-accepted-invalid", &format!("out-of-range or inconsistent options were accepted REPLAY[{}]", input)); }
@@ -222,7 +234,7 @@ async fn config_case(ctx: &mut Ctx, sock: &str, o: &Opts, x: u32, idx: u64) {
             }
             observed = format!("started pol={} pay={} self={} mpp={}", pol, payobs, selfobs, mppobs);
             // stdout framing (C17): everything written is JSON documents each followed by a blank line
-            let _ = p.child.kill().await;
+            let _ = p.child.kill().await; check_stderr(ctx, &p, "an e2e session");
             let mut rest = Vec::new(); let _ = tokio::time::timeout(Duration::from_millis(200), p.stdout.read_to_end(&mut rest)).await; p.all_out.extend_from_slice(&rest);
             let mut start_i = 0; let mut i = 0; let b = &p.all_out;
             while i + 1 < b.len() { if b[i] == b'\n' && b[i + 1] == b'\n' { if serde_json::from_slice::<Value>(&b[start_i..i]).is_err() { ctx.violation("C17", "stdout-framing", &format!("stdout chunk is not a JSON document: {:?}", String::from_utf8_lossy(&b[start_i..i]))); } start_i = i + 2; i += 2; } else { i += 1; } }
@@ -264,7 +276,7 @@ async fn hostile_session(ctx: &mut Ctx, sock: &str, rng: &mut Rng, n: usize) {
                 _ => {}
             }
         }
-        let _ = p.child.kill().await;
+        let _ = p.child.kill().await; check_stderr(ctx, &p, "an e2e session");
     } else { ctx.violation("C19,C06", "e2e-no-start", "default options did not start"); }
     pilot.abort(); server.abort();
 }
